@@ -320,6 +320,11 @@ def _lazy_slots(ctx) -> Dict[str, str]:
                 if isinstance(n, ast.If) and n.body and isinstance(n.body[-1], ast.Return):
                     t = inline(n.test, sd)
                     first = t.values[0] if isinstance(t, ast.BoolOp) and isinstance(t.op, ast.And) else t
+                    if isinstance(first, ast.Compare) and isinstance(first.left, ast.Name):
+                        # a local copy that is also re-bound later (`self._slot = cached = value`): take the one binding before the test
+                        srcs_ = [x.value for x in walk_local(f.node) if isinstance(x, ast.Assign) and len(x.targets) == 1 and isinstance(x.targets[0], ast.Name) and x.targets[0].id == first.left.id and x.lineno < n.lineno]
+                        if len(srcs_) == 1 and is_attr_of(srcs_[0], "self"):
+                            first = ast.Compare(left=srcs_[0], ops=first.ops, comparators=first.comparators)
                     if isinstance(first, ast.Compare) and len(first.ops) == 1 and isinstance(first.ops[0], ast.IsNot) and is_attr_of(first.left, "self") and _is_none(first.comparators[0]):
                         slot = first.left.attr
                         later = [x for x in walk_local(f.node) if isinstance(x, ast.Assign) and any(is_attr_of(tt, "self", slot) for tt in x.targets) and x.lineno > n.lineno]
